@@ -41,7 +41,7 @@ func genC03(t *rapid.T) hsConfig {
 		c.IMin = rapid.IntRange(0, c.RMax).Draw(t, "imin")
 		c.RMin = rapid.IntRange(0, c.IMin).Draw(t, "rmin")
 		c.IMax = rapid.IntRange(c.RMax, 2).Draw(t, "imax")
-		c.PassMode = rapid.SampledFrom([]string{"same", "same", "bit", "bit", "random", "short"}).Draw(t, "pass_mode")
+		c.PassMode = rapid.SampledFrom([]string{"same", "same", "same", "bit", "bit", "random", "short", "pad0", "trail0"}).Draw(t, "pass_mode")
 		c.PassBit = rapid.IntRange(0, 111).Draw(t, "pass_bit")
 	}
 	c.AuthLen = rapid.OneOf(rapid.SampledFrom([]int{16, 32, 64, 400, 498}), rapid.IntRange(16, 2000), rapid.SampledFrom([]int{65535, 65536, 200000})).Draw(t, "auth_len")
